@@ -234,7 +234,16 @@ bool World::loop(const std::function<bool()> &stop, uint64_t until_ns) {
       if (until_ns > now()) simk::K().now_ns = until_ns;
       return true;
     }
-    if (tn > now()) { simk::K().now_ns = tn; spin = 0; }
+    if (tn > now()) {
+      if (tn - now() > long_sleep_ns) {
+        // nothing but a wake-up hours away is left: the run is quiescent for every purpose of the oracles
+        tr.ev(now_us(), "long sleep: next %s in %.1f s - treated as quiescent", is_event ? "event" : "timer", (tn - now()) / 1e9);
+        count("probe.long_sleep");
+        return true;
+      }
+      simk::K().now_ns = tn;
+      spin = 0;
+    }
     if (is_event) {
       Ev e = q.top();
       q.pop();
